@@ -4,6 +4,7 @@ from spec import tables, inv
 import axioms
 
 LEVEL = 'proof'
+FIXTURES = ['F1', 'F2', 'F4', 'F6']
 NEEDS_REL = True
 
 # std callees without a semantic model that are total (cannot panic, terminate) - C03.U allowlist
